@@ -1029,3 +1029,67 @@ package kapacitor
 //@   requires n != nil && n.diag != nil && n.Node != nil
 //@   ensures [panic-recovered] panicking() ==> recovered()
 //@   guardcall send#1: panicking() ==> err != nil
+
+// ---------------------------------------------------------------- replay.go (C18)
+// "delivers ... the same sequence of points ... with timestamps either identical (recorded-time
+// replay) or all shifted by one constant offset, and the replay ends after the last recorded item".
+//@ func =(github.com/influxdata/kapacitor/clock.Setter).Zero
+//@   trusted
+//@   pure
+//@ func =(github.com/influxdata/kapacitor/clock.Clock).Until
+//@   trusted
+//@   modifies nothing
+//@ func (StreamCollector).CollectPoint
+//@   trusted
+//@   modifies nothing
+//@ func (StreamCollector).Close
+//@   trusted
+//@   modifies nothing
+
+// Stream replay. Every point taken from the recording is handed to the collector exactly once,
+// in the order received, before the next one is taken:
+//  - recorded-time replay: the very message that was read;
+//  - otherwise a copy whose time is the recorded time plus `diff`;
+// `diff` is fixed by the first point (clock zero minus its time) and never changes afterwards --
+// one constant offset (assumed: no recorded point carries the zero Time, which the code uses as
+// its 'not started' mark). The collector is closed on every way out.
+//@ func replayStreamFromChan
+//@   props C18
+//@   opt nonnilrecv=points
+//@   requires clck != nil && collector != nil
+//@   ensures called(Close)
+//@   guardcall CollectPoint#1: arg0 == p && diff == time.Duration(clck.Zero() - start) && waitTime == p.Time() + time.Time(diff)
+//@       && (recTime ==> !called(SetTime))
+//@       && (!recTime ==> called(ShallowCopy) && p == callresult(ShallowCopy, 0) && called(SetTime) && callarg(SetTime, 0) == waitTime)
+//@   loop 1
+//@     invariant start != time.Time(0) ==> diff == time.Duration(clck.Zero() - start)
+//@     invariant recTime ==> !called(SetTime)
+//@     transition prev(start) != time.Time(0) ==> start == prev(start) && diff == prev(diff)
+
+//@ func (BatchCollector).CollectBatch
+//@   trusted
+//@   modifies nothing
+//@ func (BatchCollector).Close
+//@   trusted
+//@   modifies nothing
+
+// Batch replay. Every batch taken from the recording is handed to the collector (the very batch
+// object that was read), exactly once, before the next one is taken; `diff` is fixed by the first
+// point of the first non-empty batch and never changes afterwards; in shifted mode every point of
+// the batch gets its recorded time plus `diff`; the collector is closed on every way out.
+// (What happens to the batch's own end time is described by the code, not pinned here: it is set
+// to the last point's time when that is later, see DESIGN §13.4.)
+//@ func replayBatchFromChan
+//@   props C18
+//@   opt nonnilrecv=batches
+//@   requires clck != nil && collector != nil
+//@   ensures called(Close)
+//@   guardcall CollectBatch#1: arg0 == b && len(b.Points()) > 0 && diff == time.Duration(clck.Zero() - start)
+//@   guardcall CollectBatch#2: arg0 == b && len(b.Points()) == 0
+//@   loop 1
+//@     modifies gfall(mutated, bool)
+//@     invariant start != time.Time(0) ==> diff == time.Duration(clck.Zero() - start)
+//@     transition prev(start) != time.Time(0) ==> start == prev(start) && diff == prev(diff)
+//@   loop 2
+//@     modifies gfall(mutated, bool)
+//@     invariant 0 <= _i && _i <= len(points) && points == b.Points() && diff == time.Duration(clck.Zero() - start)
